@@ -108,15 +108,24 @@ def one(acc, seq, bo, wo):
         return
     rseq = tuple((t, wire(t, v)) for t, v in seq)
     exp = rp.image(rseq, bo, wo)
-    # a builder that is reset and filled again must produce the same image (no state carried over)
-    try:
-        b.reset()
-        for t, v in seq:
-            getattr(b, ADD[t])(list(v) if t == 'bits' else v)
-        if b.to_string() != raw:
-            acc.violation('C19/%s/%s/image/after-reset' % (seq[0][0], tag), wit, 'image after reset() + refill %s, first %s' % (b.to_string().hex(), raw.hex()), tag)
-    except Exception as e:   # noqa
-        acc.violation('C19/%s/%s/image/after-reset-raise:%s' % (seq[0][0], tag, type(e).__name__), wit, repr(e)[:100], tag)
+    # a builder that is reset and filled again must produce the image of what it was filled with the second
+    # time: the same values again, and other values of the same types (same number of items)
+    for which in ('same', 'other'):
+        seq2 = seq if which == 'same' else tuple((t, VALUES[t][(VALUES[t].index(v) + 1) % len(VALUES[t])] if v in VALUES[t] else v) for t, v in seq)
+        exp2 = rp.image(tuple((t, wire(t, v)) for t, v in seq2), bo, wo)
+        try:
+            b.reset()
+            for t, v in seq2:
+                getattr(b, ADD[t])(list(v) if t == 'bits' else v)
+            got2 = b.to_string()
+            if got2 != exp2 and (which == 'other' or got2 != raw):
+                acc.violation('C19/%s/%s/image/after-reset' % (seq[0][0], tag), wit if which == 'same' else dict(wit, refill='other'),
+                              'image after reset() + refill %s, expected %s' % (got2.hex(), exp2.hex()), tag)
+            elif which == 'other' and (b.to_registers() != rp.registers(exp2) or b''.join(b.build()) != bytes(exp2) + b'\x00' * (len(exp2) % 2)):
+                acc.violation('C19/%s/%s/image/after-reset' % (seq[0][0], tag), dict(wit, refill='other'),
+                              'registers after reset() + refill are not those of the new values', tag)
+        except Exception as e:   # noqa
+            acc.violation('C19/%s/%s/image/after-reset-raise:%s' % (seq[0][0], tag, type(e).__name__), wit, repr(e)[:100], tag)
     if raw != exp:
         # attribute to the first item whose slice differs
         pos, typ = 0, seq[-1][0]
